@@ -133,6 +133,7 @@ _IDS = ("presented LastEventID aimed through the generator's bookkeeping of the 
 
 def register(PROPS):
     PROPS["C08"] = {
+        "generated_layer": True,
         "gens": [{"id": "C08", "quick": 40000, "thorough": 800000, "thorough_seeds": 8}],
         "nontrivial": nontrivial_replay,
         "rule": "whole histories (Put / Replay) on a fresh FiniteReplayer: N 2..8 mostly, 9..40 sometimes, 0/1 rarely "
@@ -147,6 +148,7 @@ def register(PROPS):
         "assumptions": REPLAY_ASSUME[1:3],
     }
     PROPS["C09"] = {
+        "generated_layer": True,
         "gens": [{"id": "C09", "quick": 40000, "thorough": 800000, "thorough_seeds": 8}],
         "nontrivial": nontrivial_replay,
         "rule": "whole histories (Put / Replay / GC / clock advance) on a fresh ValidReplayer with an injected clock: TTL in "
